@@ -101,10 +101,12 @@ def query_traversal(node, callback, is_table=False, is_target=False, parent_quer
         return res
 
     if isinstance(node, ast.Select):
-        if node.from_table is not None:
-            node_out = query_traversal(node.from_table, callback, is_table=True, parent_query=node)
-            if node_out is not None:
-                node.from_table = node_out
+        # clauses are visited in the order they are written: WITH, select list, FROM, WHERE, ...
+        if node.cte is not None:
+            for cte in node.cte:
+                node_out = query_traversal(cte.query, callback, parent_query=node)
+                if node_out is not None:
+                    cte.query = node_out
 
         array = []
         for node2 in node.targets:
@@ -115,11 +117,10 @@ def query_traversal(node, callback, is_table=False, is_target=False, parent_quer
                 array.append(node_out)
         node.targets = array
 
-        if node.cte is not None:
-            for cte in node.cte:
-                node_out = query_traversal(cte.query, callback, parent_query=node)
-                if node_out is not None:
-                    cte.query = node_out
+        if node.from_table is not None:
+            node_out = query_traversal(node.from_table, callback, is_table=True, parent_query=node)
+            if node_out is not None:
+                node.from_table = node_out
 
         if node.where is not None:
             node_out = query_traversal(node.where, callback, parent_query=node)
